@@ -145,6 +145,29 @@ type vpC03Model struct {
 	UsedStream  bool
 	UsedFraming bool
 	AppendedToRaw bool
+
+	// Mirror of fasthttp's size bookkeeping (ResponseHeader.contentLength / the Transfer-Encoding field kept in
+	// the header list), including its rule "SetContentLength is ignored while the status is 204/304".
+	// NEVER used by the oracle: it only delimits the input classes of the open known findings so that they
+	// can be excluded from generation (see vpC03KnownClass).
+	implCL      int
+	implTE      bool
+	implCLBytes bool // a Content-Length line will be written
+}
+
+// implSetCL mirrors ResponseHeader.SetContentLength.
+func (m *vpC03Model) implSetCL(n int) {
+	if m.Status == 204 || m.Status == 304 {
+		return
+	}
+	m.implCL = n
+	if n >= 0 {
+		m.implTE = false
+		m.implCLBytes = true
+	} else if n == -1 {
+		m.implTE = true
+		m.implCLBytes = false
+	}
 }
 
 func vpC03NewModel() *vpC03Model { return &vpC03Model{Status: 200} }
@@ -221,10 +244,12 @@ func (m *vpC03Model) apply(o vpC03Op) {
 			m.Cands = []int{-1, o.Stream.LimitN}
 		}
 		m.UsedStream = true
+		m.implSetCL(o.Stream.Declared)
 	case "sw":
 		m.IsStream, m.Stream, m.Body, m.Raw = true, o.Stream, nil, false
 		m.Cands = []int{-1}
 		m.UsedStream = true
+		m.implSetCL(-1)
 	case "skip":
 		m.Skip = true
 	case "close":
@@ -239,8 +264,12 @@ func (m *vpC03Model) apply(o vpC03Op) {
 		}
 	case "handcl":
 		m.UsedFraming = true
-		if n, err := strconv.Atoi(o.V); err == nil && n >= 0 && m.IsStream {
-			m.Cands = append(m.Cands, n)
+		if n, err := strconv.Atoi(o.V); err == nil && n >= 0 {
+			if m.IsStream {
+				m.Cands = append(m.Cands, n)
+			}
+			m.implCL = n
+			m.implCLBytes = true
 		}
 	case "handclint":
 		m.UsedFraming = true
@@ -251,6 +280,7 @@ func (m *vpC03Model) apply(o vpC03Op) {
 				m.Cands = append(m.Cands, -1)
 			}
 		}
+		m.implSetCL(o.Code)
 	case "handte":
 		m.UsedFraming = true
 	case "immflush":
